@@ -17,12 +17,16 @@ import (
 // C15: a mapreduce outfile is never observable half-written.
 
 // fsState is the content of the four files WriteResult touches ("\x00absent" = no file).
-type fsState struct{ Out, Tmp, Query, QueryTmp string }
+type fsState struct {
+	Out, Tmp, Query, QueryTmp string
+	// Link: the outfile path is a symbolic link (latest.csv -> result-of-today.csv); Out is what a reader of the path sees
+	Link bool
+}
 
 const absent = "\x00absent"
 
 func (s fsState) key() string {
-	return s.Out + "\x01" + s.Tmp + "\x01" + s.Query + "\x01" + s.QueryTmp
+	return s.Out + "\x01" + s.Tmp + "\x01" + s.Query + "\x01" + s.QueryTmp + fmt.Sprint("\x01", s.Link)
 }
 
 func c15Read(p string) string {
@@ -196,17 +200,30 @@ func c15Check(c *Ctx, maxRuns int) {
 	dir := Scratch() + fmt.Sprintf("/c15-%d", c.Shard)
 	os.MkdirAll(dir, 0o755)
 	path := dir + "/out.csv"
+	target := dir + "/result-of-today.csv"
 	files := func() fsState {
-		return fsState{c15Read(path), c15Read(path + ".tmp"), c15Read(path + ".query"), c15Read(path + ".query.tmp")}
+		fi, err := os.Lstat(path)
+		return fsState{c15Read(path), c15Read(path + ".tmp"), c15Read(path + ".query"), c15Read(path + ".query.tmp"), err == nil && fi.Mode()&os.ModeSymlink != 0}
 	}
 	restore := func(s fsState) {
-		c15Write(path, s.Out)
+		os.Remove(path)
+		os.Remove(target)
+		if s.Link {
+			c15Write(target, s.Out) // (absent: a dangling link)
+			if err := os.Symlink(target, path); err != nil {
+				panic(err)
+			}
+		} else {
+			c15Write(path, s.Out)
+		}
 		c15Write(path+".tmp", s.Tmp)
 		c15Write(path+".query", s.Query)
 		c15Write(path+".query.tmp", s.QueryTmp)
 	}
 	pre := "k,count(k)\nz,9\n" // a complete outfile left by an earlier, unrelated query
-	roots := []fsState{{absent, absent, absent, absent}, {pre, absent, "select k,count(k) group by k outfile " + path, absent}}
+	roots := []fsState{{Out: absent, Tmp: absent, Query: absent, QueryTmp: absent}, {Out: pre, Tmp: absent, Query: "select k,count(k) group by k outfile " + path, QueryTmp: absent},
+		// the outfile path is a symbolic link to the earlier complete result, or a link left dangling
+		{Out: pre, Tmp: absent, Query: "select k,count(k) group by k outfile " + path, QueryTmp: absent, Link: true}, {Out: absent, Tmp: absent, Query: absent, QueryTmp: absent, Link: true}}
 	var variants []c15Run
 	for _, app := range []bool{false, true} {
 		for _, rows := range []int{1, 2, 0, 3} {
@@ -583,7 +600,7 @@ func init() {
 	Register(&Check{
 		ID:    "C15",
 		Level: "fault_enumeration",
-		Rule: "explicit-state search over file-system states (content of outfile, outfile.tmp, .query, .query.tmp): from {nothing, a complete outfile of an earlier query} every run variant (replace/append x 4 result sets (empty, 1 row, 2 rows, and - as the first run of a history - 600 rows = larger than any 4 KiB buffer) x 0/1 interim report + final report; the 1-row query also in two other spellings of the same query - a longer text of which the base text is a strict prefix, and one of the same length - so that repeated runs against one outfile differ in nothing but the query text, " +
+		Rule: "explicit-state search over file-system states (content of outfile, outfile.tmp, .query, .query.tmp): from {nothing, a complete outfile of an earlier query, an outfile path that is a symbolic link to such a file, a dangling link} every run variant (replace/append x 4 result sets (empty, 1 row, 2 rows, and - as the first run of a history - 600 rows = larger than any 4 KiB buffer) x 0/1 interim report + final report; the 1-row query also in two other spellings of the same query - a longer text of which the base text is a strict prefix, and one of the same length - so that repeated runs against one outfile differ in nothing but the query text, " +
 			"the call pattern of MaprClient.reportResults in cumulative mode) is executed on the real GlobalGroupSet.WriteResult over a recording file system, once to completion, once killed before EVERY mutating file-system operation and once with a write error (half of the data stored, then 'no space left on device') at every write " +
 			"(the file system is frozen, deferred clean-up has no effect); resulting states are de-duplicated and expanded to histories of 2 (quick) / 3 (thorough) runs; the invariant is evaluated on every state (incl.: after every completed run, in both modes, .query holds exactly the text of the query that ran); plus: an interim and a final report of one client requested at the same moment (replace and append mode), all schedules within 2 (quick) / 3 (thorough) deviations with file-system operations as scheduling points, invariant: the outfile is never observable half-written and ends complete; non-trivial = a history containing a kill",
 		Assumptions: []string{
